@@ -1324,9 +1324,6 @@ func (n *node) runHist(o *hlib.Out, kind string, h histD) {
 			ob = []interface{}{preOk, v.poolB, with}
 			nontriv = nontriv || with == "RBlocked"
 		case "delay":
-			if h.Grp {
-				continue
-			}
 			base := "ROk"
 			if delayed {
 				base = "ROther" // ErrDupTx of the delay cache
@@ -1339,7 +1336,7 @@ func (n *node) runHist(o *hlib.Out, kind string, h histD) {
 			ob = []string{base, c}
 			nontriv = nontriv || c == "RBlocked"
 		case "dblock":
-			if h.Grp || delayed {
+			if delayed {
 				continue
 			}
 			cached, ok := n.delayBlockHist(v.entry)
@@ -1428,7 +1425,7 @@ func (n *node) genHistPair(r *hlib.Rng, p1, p2 string, rev bool) histD {
 	if r.Chance(1, 4) {
 		clean = unfundedIx
 	}
-	h := histD{Body: n.histBody(r, nil), Grp: r.Chance(1, 5) && p1 != "delay" && p2 != "delay"}
+	h := histD{Body: n.histBody(r, nil), Grp: r.Chance(1, 5)}
 	L := []string{spellings(r, n.actors[listed].Addr)}
 	if r.Chance(1, 3) {
 		x := hlib.Pick(r, n.recips)
@@ -1479,9 +1476,6 @@ func (n *node) genHistRand(r *hlib.Rng) histD {
 			continue
 		}
 		op := hlib.Pick(r, pts)
-		if h.Grp && (op == "delay" || op == "dblock") {
-			op = "pred"
-		}
 		h.Steps = append(h.Steps, hstepD{Op: op, From: hlib.Pick(r, signers), H: histHeight(r)})
 	}
 	return h
@@ -1612,7 +1606,8 @@ func main() {
 				{Op: "load", L: []string{s1}}, {Op: "pool", From: unfundedIx, H: forkH}, {Op: "pool", From: 1, H: forkH},
 				{Op: "prod", From: 1, H: forkH}, {Op: "exec", From: 1, H: forkH}}}},
 			{"w-hist-group", histD{Body: txD{Kind: "coins", To: r1}, Grp: true, Head: 1, Steps: []hstepD{
-				{Op: "load", L: []string{s0}}, {Op: "exec", From: 2, H: forkH}, {Op: "pred", From: 0, H: forkH}, {Op: "pool", From: 0, H: forkH}}}},
+				{Op: "load", L: []string{s0}}, {Op: "exec", From: 2, H: forkH}, {Op: "pred", From: 0, H: forkH}, {Op: "pool", From: 0, H: forkH},
+				{Op: "delay", From: 0, H: forkH}, {Op: "dblock", From: 0, H: forkH}, {Op: "delay", From: 2, H: forkH}, {Op: "delay", From: 0, H: forkH}}}},
 			{"w-hist-reload", histD{Body: txD{Kind: "coins", To: r0}, Steps: []hstepD{
 				{Op: "load", L: []string{r1}}, {Op: "pool", From: 0, H: forkH}, {Op: "load", L: []string{r1, r0}}, {Op: "pool", From: 0, H: forkH},
 				{Op: "load", L: []string{s0}}, {Op: "delay", From: 0, H: forkH}, {Op: "load", L: nil}, {Op: "dblock", From: 0, H: forkH}}}},
